@@ -117,6 +117,8 @@ Proof.
     inversion H2; subst. constructor; cbn [set_cache set_stages mem stages pstart pend]; auto.
   - exact H.
   - exact H.
+  - cbn [fst]. unfold store_step. destruct (inflight s); [|exact H]. destruct (flushing s) as [[g fb]|]; [|exact H].
+    destruct (nth_error fb (N.to_nat i)) as [[k v]|]; [|exact H]. eapply binv_frame; [exact H|..]; reflexivity.
 Qed.
 
 Lemma binv_run P ops : forallb op_keys_ok ops = true -> binv (run P ops).
